@@ -1383,6 +1383,9 @@ def _annotation_to_type_label(annotation: Optional[ast.AST]) -> str:
     return mapping.get(name, "int")
 
 
+_NUMERIC_LABEL_RANK = {"bool": 0, "int": 1, "float": 2}
+
+
 def _merge_return_types(types: List[str], has_void: bool) -> str:
     """Combine multiple inferred return types into a single representative type."""
 
@@ -1673,6 +1676,7 @@ def _parse_function(
     if forced_signature is not None and len(forced_signature) != len(all_args):
         raise ValueError("call signature arity does not match function definition")
 
+    entry_labels: Dict[str, str] = {}
     for idx, arg in enumerate(all_args):
         if forced_signature is not None:
             param_type_label = forced_signature[idx]
@@ -1680,6 +1684,7 @@ def _parse_function(
             param_type_label = _annotation_to_type_label(arg.annotation)
             if arg.annotation is None and idx in type_entry:
                 param_type_label = type_entry[idx]
+        entry_labels[arg.arg] = param_type_label
         child_ctx["var_types"][arg.arg] = param_type_label
         child_ctx["var_declared"].add(arg.arg)
         child_ctx["vars"][arg.arg] = _ExprStr(arg.arg)
@@ -1710,6 +1715,15 @@ def _parse_function(
     params: List[Tuple[str, str]] = []
     for param_name, idx in params_order:
         resolved_label = child_ctx["var_types"].get(param_name, type_entry.get(idx, "int"))
+        entry_label = entry_labels.get(param_name)
+        if (
+            entry_label in _NUMERIC_LABEL_RANK
+            and resolved_label in _NUMERIC_LABEL_RANK
+            and _NUMERIC_LABEL_RANK[entry_label] > _NUMERIC_LABEL_RANK[resolved_label]
+        ):
+            # re-assigning a parameter to a narrower number must not narrow the
+            # declared parameter: it still receives the caller's wider argument.
+            resolved_label = entry_label
         type_entry[idx] = resolved_label
         resolved_param_types.append(resolved_label)
         params.append((param_name, _cpp_type(resolved_label)))
